@@ -259,6 +259,86 @@ def file_relative(ctx):
         shutil.rmtree(tmp, ignore_errors=True)
 
 
+# ---------------------------------------------------------------------------
+# instances of the re-parse theorem (C18_reparse_sections_partial): docstrings made of prose and runs of well-formed examples
+# (one indentation per run; an example that is followed by prose-then-examples has a want).  By construction the displayed text
+# must be the examples' lines at indentation 0, and parsing it again must give the same parts up to the lines they start on
+# ---------------------------------------------------------------------------
+SEC_STATEMENTS = [
+    (['x = 1'], None), (['y = [1,', '     2]'], None), (['print(x)'], ['1']), (['x'], ['1']),
+    (['for i in range(2):', '    print(i)'], ['0', '1']), (['# a comment'], None), (['x = 1  # xdoctest: +SKIP'], None),
+    (['@dec', 'def g():', '    pass'], None), (['f(', '  3)'], ['3']), (['z = (1 +', '     2)'], None), (['w = {', "  'k': 1}"], None),
+    (['print("a b")  # xdoctest: +NORMALIZE_WHITESPACE'], ['a  b']), (['q = 2; q'], ['2']),
+]
+SEC_PROSE = ['Some prose here.', 'Args:', '    x (int): thing', 'Returns: int', 'Note - nothing.', 'See also the manual.']
+
+
+def gen_sections_doc(rng):
+    lines, shown = [], []
+    nsec = rng.randint(1, 4)
+    for si in range(nsec):
+        last_sec = si == nsec - 1
+        if si or rng.random() < 0.6:
+            if si:
+                lines.append('')            # prose after an example starts with a blank line
+            for _k in range(rng.randint(0 if si else 1, 2)):
+                lines.append(rng.choice(SEC_PROSE))
+            if rng.random() < 0.6:
+                lines.append('')
+        ind = rng.choice([0, 4, 4, 8])
+        style = rng.choice(['ps1', 'ps2', 'ps2'])
+        nex = rng.randint(1, 3)
+        for ei in range(nex):
+            last_ex = ei == nex - 1
+            nst = rng.randint(1, 3)
+            want = None
+            for k in range(nst):
+                src, w = rng.choice(SEC_STATEMENTS)
+                for j, l in enumerate(src):
+                    pre = '>>> ' if (j == 0 or style == 'ps1') else '... '
+                    lines.append(' ' * ind + pre + l)
+                    shown.append(pre + l)
+                if k == nst - 1:
+                    want = w
+            must_want = last_ex and not last_sec
+            if want is None and must_want:
+                lines.append(' ' * ind + '>>> print(x)')
+                shown.append('>>> print(x)')
+                want = ['1']
+            if want is not None and (must_want or rng.random() < 0.7):
+                for wl in want:
+                    lines.append(' ' * ind + wl)
+                    shown.append(wl)
+    if rng.random() < 0.5:
+        lines += ['', rng.choice(SEC_PROSE)]
+    return '\n'.join(lines), shown
+
+
+def check_sections_doc(doc, shown_expected):
+    from xdoctest import doctest_example, parser
+    problems = []
+    with warnings.catch_warnings():
+        warnings.simplefilter('ignore')
+        ex = doctest_example.DocTest(docsrc=doc, lineno=1)
+        ex._parse()
+        shown = ex.format_src(linenos=False, colored=False, want=True, prefix=True)
+        if shown.split('\n') != shown_expected:
+            problems.append('the displayed text is not the examples\' lines at indentation 0: %r' % (shown[:300],))
+        again = [p for p in parser.DoctestParser().parse(shown) if not isinstance(p, str)]
+
+    def key(p):
+        try:
+            ds = [(d.name, d.positive, tuple(d.args), d.inline) for d in p.directives]
+        except Exception as e:
+            ds = 'raises ' + type(e).__name__
+        return (list(p.exec_lines), list(p.orig_lines), list(p.want_lines or []), p.compile_mode, ds)
+    a, b = [key(p) for p in again], [key(p) for p in ex._parts]
+    if a != b:
+        problems.append('parsing the displayed text again gives other parts: %d vs %d parts, first difference %r' % (
+            len(a), len(b), next(((x, y) for x, y in zip(a, b) if x != y), None)))
+    return problems
+
+
 def run(ctx):
     # n_digits: float log10 vs integer
     ns = list(range(0, 20001)) + [99999, 100000, 100001]
@@ -305,6 +385,21 @@ def run(ctx):
             ctx.violation('display', {'what': '; '.join(problems)[:1200], 'doctest': d, 'lineno': lineno,
                           'theorem_or_correspondence': 'C18 predicates on DocTest.format_src'}, True)
     file_relative(ctx)
+    # instances of the re-parse theorem
+    rng = ctx.rng('sections')
+    nsec = 0
+    for _ in range(600 if ctx.tier == 'quick' else 12000):
+        doc, shown = gen_sections_doc(rng)
+        try:
+            probs = check_sections_doc(doc, shown)
+        except Exception as e:
+            probs = ['%s: %s' % (type(e).__name__, str(e)[:200])]
+        nsec += 1
+        ctx.evaluations += 1
+        if probs and len([v for v in ctx.violations if v['kind'] == 'reparse-instance']) < 4:
+            ctx.violation('reparse-instance', {'what': '; '.join(probs)[:1200], 'doctest': doc, 'shown_expected': shown,
+                          'theorem_or_correspondence': 'instance of C18_reparse_sections_partial on DoctestParser.parse / DocTest.format_src'}, True)
+    ctx.count('reparse_theorem_instances', nsec)
     # the recorded witness of F12 is re-evaluated on the real code every run
     for e in common.load_known_findings('C18'):
         w = e['witness']['doctest']
@@ -325,6 +420,13 @@ def run(ctx):
 
 def replay(path):
     d = json.load(open(path))
+    if d.get('kind') == 'reparse-instance':
+        probs = check_sections_doc(d['doctest'], d['shown_expected'])
+        print('doctest:\n%s\nproblems=%r' % (d['doctest'], probs))
+        if probs:
+            print('VIOLATION property=C18 replay=%s' % path)
+            return 1
+        return 0
     if 'doctest' in d and 'lineno' in d:
         reqs, texts, problems = check_doc(d['doctest'], d['lineno'])
         ans = common.model_batch(reqs)
